@@ -52,6 +52,7 @@ void vf_lib_assert_fail(unsigned fid, unsigned line) {
   fprintf(stderr, "VF-NATIVE-FAIL libassert:%u:%u\n", fid, line); fflush(stderr); _exit(1);
 }
 void vf_cut() { fprintf(stderr, "VF-NATIVE reached a cut\n"); fflush(stderr); _exit(0); }
+void vf_unresolved_called() { fprintf(stderr, "VF-NATIVE reached a function defined in another translation unit (not linked into the replay)\n"); fflush(stderr); _exit(79); }
 void vf_cut_exit() { fprintf(stderr, "VF-NATIVE reached a cut function\n"); fflush(stderr); _exit(0); }
 unsigned char* vf_new(unsigned long n) { return static_cast<unsigned char*>(::operator new(n ? n : 1)); }
 // cancellation oracle: the driver rewrites atomic i8 loads in the native IR
